@@ -316,6 +316,8 @@ class Evaluator:
         if k == 'seq':
             n = S.seq_n(base)
             i = idx.t
+            if not z3.is_int_value(i) and self.eng.term_size(i) <= 3:
+                i = z3.simplify(i)              # -1 is a unary minus applied to 1
             if z3.is_int_value(i) and i.as_long() < 0:
                 i = n + i
             if not spec:
@@ -1181,7 +1183,23 @@ class Engine:
         full['cls'] = clsv
         return S.mk_block(**full)
 
+    def isa(self, v, c):
+        """isinstance(<opaque object>, <class>): an uninterpreted relation between object identities and class names"""
+        if isinstance(c, tuple) and c[0] == 'extref':
+            cn = S.name_lit('.'.join(c[1:]))
+        elif isinstance(c, V) and c.ty == ('pyclass',):
+            cn = c
+        elif isinstance(c, tuple) and c[0] == 'pytuple':
+            return Or(*[self.isa(v, x) for x in c[1]])
+        else:
+            raise Unsupported('isinstance against %r' % (c,))
+        self.assumptions_used.add('isinstance(<ast node>, <class>) is an uninterpreted relation on (object, class name): no class '
+                                  'hierarchy fact is used')
+        return ufun('isa!', z3.IntSort(), S.sort_of(T_NAME), z3.BoolSort())(v.t, cn.t)
+
     def coerce(self, v, ty, ev):
+        if isinstance(v, tuple) and v[0] == 'extref' and ty == ('pyclass',):
+            return V(('pyclass',), S.name_lit('.'.join(v[1:])).t)
         if v.ty == ty:
             return v
         if v.ty[0] == 'pair' and ty[0] == 'seq':
@@ -1365,7 +1383,12 @@ class Engine:
                 return S.vbool(self.isinstance_formula(v, c))
             if isinstance(v, V) and v.ty == T_INT and isinstance(c, tuple) and c[0] == 'extref':
                 return S.vbool(True)
+            if isinstance(v, V) and v.ty == ('node',):
+                return S.vbool(self.isa(v, c))
             raise Unsupported('isinstance on %r' % (v,))
+        if name == 'isa':
+            # spec: isinstance of an opaque object against a Python class (an uninterpreted relation)
+            return S.vbool(self.isa(E(0), E(1)))
         if name == 'type':
             v = E(0)
             if isinstance(v, V) and v.ty == T_BLOCK:
@@ -2166,10 +2189,19 @@ class Engine:
             vals[names[0]] = self_val
             pos = 1
         if node is not None:
+            va = fn.args.vararg.arg if (fn is not None and fn.args.vararg) else None
+            nfixed = len(fn.args.args) if fn is not None else len(names)
+            extra = []
             for a in node.args:
+                if va is not None and pos >= nfixed:
+                    extra.append(ev.ev(a, path, spec))      # *args: packed into a tuple
+                    continue
                 vals[names[pos]] = ev.ev(a, path, spec)
                 nodes[names[pos]] = a
                 pos += 1
+            if va is not None:
+                want_ = S.parse_type(c.params[va])
+                vals[va] = S.seq_from_list(want_[1], extra)
             for k in node.keywords:
                 vals[k.arg] = ev.ev(k.value, path, spec)
                 nodes[k.arg] = k.value
@@ -2201,6 +2233,8 @@ class Engine:
             want = S.parse_type(c.params[n])
             if isinstance(vals[n], tuple) and vals[n][0] == 'emptyseq' and want[0] == 'seq':
                 vals[n] = S.seq_from_list(want[1], [])
+            if isinstance(vals[n], tuple) and vals[n][0] == 'extref' and want == ('pyclass',):
+                vals[n] = V(('pyclass',), S.name_lit('.'.join(vals[n][1:])).t)
             if isinstance(vals[n], V) and want[0] != 'obj' and vals[n].ty != want:
                 vals[n] = self.coerce_arg(vals[n], want, ev, path)
         return vals, nodes
@@ -3271,7 +3305,7 @@ class Engine:
         self.canary_points = []
         self.pruned = []
         # parameter check against the real signature
-        real = [a.arg for a in self.fn.args.args]
+        real = [a.arg for a in self.fn.args.args] + ([self.fn.args.vararg.arg] if self.fn.args.vararg else [])
         if real != list(c.params):
             raise Unsupported('signature changed: %r vs contract %r' % (real, list(c.params)))
         env = {n: self.symbolic_param(n, t) for n, t in c.params.items()}
